@@ -70,7 +70,7 @@ class Gen:
             return d
         return d
 
-    def plan(self, mode=None, style=None, clean=None):
+    def plan(self, mode=None, style=None, clean=None, nmask=None):
         rng = self.rng
         mode = mode or rng.choice(["install", "install", "replace", "replace", "uninstall"])
         style = style or rng.choice(["chroot", "chroot", "chroot", "nested"])
@@ -81,7 +81,15 @@ class Gen:
             protect.insert(0, "/etc")
         if not protect:
             protect = ["/opt/vtapp/cfg"]
-        mask = [d for d in MASK_POOL if rng.random() < 0.45]
+        if nmask is None:
+            mask = [d for d in MASK_POOL if rng.random() < 0.45]
+        else:
+            # a fixed number of distinct mask entries (the filter has separate code for 0 / 1 / several)
+            mask = rng.sample(MASK_POOL, min(nmask, len(MASK_POOL)))
+            for m in mask:
+                owner = [d for d in PROTECT_POOL if m.startswith(d + "/")][0]
+                if owner not in protect and rng.random() < 0.9:
+                    protect.append(owner)
         ignore = []
         declared = False
         if not clean or rng.random() < 0.25:
@@ -127,12 +135,29 @@ class Gen:
         old = {} if mode in ("uninstall", "replace") else None
         new = {} if mode in ("install", "replace") else None
         nonfile_done = False
+        jobs = []
         for d in sorted(dirs):
-            for _ in range(rng.choice([0, 1, 1, 2, 3])):
+            jobs.extend((d, None) for _ in range(rng.choice([0, 1, 1, 2, 3])))
+        # neighbours whose names merely *extend* a masked directory's name (app.conf, appdata/x, app-extra/x next
+        # to a masked app/): not under the mask, hence still protected; always edited on disk
+        for m in mask:
+            if rng.random() < 0.85:
+                mrel = m.lstrip("/")
+                picks = [(mrel.rsplit("/", 1)[0], mrel.rsplit("/", 1)[1] + ".conf"), (mrel + "data", None),
+                         (mrel + "-extra", None)]
+                rng.shuffle(picks)
+                jobs.extend((d, f, True) for d, f in picks[: rng.choice([1, 2, 2, 3])])
+        for job in jobs:
+            d, forced_name, sibling = (job + (False,))[:3]
+            if True:
                 r = rng.random()
                 if d == "usr/share/vtcfg/etc":
                     r = 0.0
-                if r < 0.12:
+                if forced_name is not None:
+                    fname = forced_name
+                elif sibling:
+                    fname = self.name()
+                elif r < 0.12:
                     fname = self.name("vt_c", ".vtcache")
                 elif r < 0.2:
                     fname = "vtignored.conf"
@@ -152,6 +177,8 @@ class Gen:
                                  [1, 2, 5, 1, 3 if in_old else 0])[0]
                 if in_old and not in_new and st in ("absent", "identical"):
                     st = rng.choice(["differs", "as-recorded"])
+                if sibling:
+                    st = rng.choice(["differs", "differs", "differs-same-size"])
                 if st == "identical":
                     cur = incoming if in_new else recorded
                 elif st == "differs":
@@ -168,7 +195,7 @@ class Gen:
                 if in_old:
                     old[rel] = F(recorded)
                 if in_new:
-                    if (not clean) and (not nonfile_done) and cur is not None and rng.random() < 0.08:
+                    if (not clean) and (not nonfile_done) and (not sibling) and cur is not None and rng.random() < 0.08:
                         new[rel] = L("vt_elsewhere.conf")
                         nonfile_done = True
                     else:
